@@ -132,7 +132,7 @@ def run(res, tier, seed, shard, nshards):
             else:
                 declared_pairs(res, W, rng, job[1])
 
-    H.in_sim(scen, watchdog=3000, horizon=10_000_000)
+    H.in_sim(scen, watchdog=3000)
 
 
 def record_exception(res, W, e, phase, label, case, conn):
